@@ -1141,8 +1141,17 @@ def cases(ctx: Ctx):
     yield from c08_cli.cases(ctx)
     # chunk-size sweep: the same image sent inline under consecutive command-size limits, so that payload lengths that are
     # exact multiples of the chunk size (and one more / one less) all occur, whatever the header length is
+    def _png_len(w_, h_, sd):
+        b = io.BytesIO()
+        U.noise_image(w_, h_, sd, "RGB").save(b, format="PNG")
+        return b.tell()
+
     for layers in ((0, 1) if ctx.quick else (0, 1, 2)):
         base = rng.randrange(96, 110)
+        # an image whose encoded length IS a multiple of one of the chunk payload sizes the sweep goes through (multiples of 3)
+        # (noise does not compress, so the length depends on the dimensions: 3wh + h + a constant)
+        sweep_img = next(((w_, h_, sd) for (w_, h_, sd) in ((rng.randrange(6, 15), rng.randrange(6, 15), rng.randrange(1 << 30)) for _ in range(400))
+                          if sum(1 for cc in range(39, 118, 3) if _png_len(w_, h_, sd) % cc == 0) >= 2), (9, 13, 1))
         reqs = []
         for mcs in range(base + 60 * layers, base + 60 * layers + (150 if ctx.quick else 400)):
             reqs.append(dict(op="setmax", t=0, value=mcs))
@@ -1150,7 +1159,7 @@ def cases(ctx: Ctx):
         yield dict(k="scenario", terminals=1, ssh=False,
                    config=dict(id_space="24bit", id_subspace="0:256", upload_method="direct", max_command_size=4096,
                                **({"num_tmux_layers": layers} if layers else {})),
-                   pool=[["mem-rgb", 10, 12, rng.randrange(1 << 30)]], requests=reqs)
+                   pool=[["mem-rgb", *sweep_img]], requests=reqs)
     n = 600 if ctx.quick else 6000
     for i in range(n):
         nterm = rng.choice([1, 1, 2, 3])
